@@ -1,14 +1,14 @@
 """C12 — ideal-arithmetic refinement obligations (contracts) + bounded relational contracts (DESIGN 4.C01/C07/C11/C12)."""
-from vlib.core import Check
+from vlib.core import Check, guarded
 
 
 def run(tier, seed):
     chk = Check("C12", tier, seed, "other", "./check C12 --tier " + tier)
     try:
         from checks import sl_proved
-        sl_proved.add_obligations(chk, "C12", tier, seed)
+        guarded(chk, 'proved part sl_proved', sl_proved.add_obligations, chk, "C12", tier, seed)
     except ImportError:
         chk.notes.append("proved ideal-arithmetic clauses not built yet")
     from bounded import relational
-    relational.run(chk, "C12", tier, seed)
+    guarded(chk, 'bounded part relational.run', relational.run, chk, "C12", tier, seed)
     return chk.finish()
